@@ -7,7 +7,6 @@
 package main
 
 import (
-	"sync"
 	"bufio"
 	"bytes"
 	"encoding/json"
@@ -20,6 +19,7 @@ import (
 	"runtime/debug"
 	"sort"
 	"strings"
+	"sync"
 	"syscall"
 	"time"
 
